@@ -516,6 +516,11 @@ class Call:
         self.idx, self.stream, self.vs, self.hname, self.headers = idx, stream, vs, hname, headers
         self.timeout, self.query, self.opname = timeout, query, opname
         self.upcfg = upcfg or {i: ("bytesio", "start") for i in range(N_UPLOADS)}
+        self.resp_i = 0          # index into RESPONSES: what the server answers to this call
+
+    @property
+    def resp(self):
+        return RESPONSES[self.resp_i]
 
     def cmd(self):
         h = Sym("none") if self.headers is None else [Sym("some"), [[k, v] for k, v in self.headers.items()]]
@@ -534,7 +539,8 @@ class Call:
     def replay(self):
         return {"stream": self.stream, "variables_tree": self.vs, "headers": self.headers, "timeout": self.timeout,
                 "query": self.query, "operation_name": self.opname,
-                "upload_streams": {str(i): list(v) for i, v in self.upcfg.items()}}
+                "upload_streams": {str(i): list(v) for i, v in self.upcfg.items()},
+                "server_response": {"status": self.resp[0], "json_body": self.resp[1]}}
 
 
 def gen_calls(ctx):
@@ -578,6 +584,11 @@ def gen_calls(ctx):
             calls.append(Call(len(calls), "main", vs, hname, h, None, QUERIES[0], "Q"))
     # Example C11_example_json, third conjunct: an UNSET met below the top level, nothing is sent
     calls.append(Call(len(calls), "nested-unset", [("l", ("list", [("unset",)]))], "absent", None, None, QUERIES[0], None))
+    # every scripted answer on both request paths (JSON / multipart)
+    for ri in range(len(RESPONSES)):
+        for vs in ([("a", ("leaf", "int", 1))], [("f", ("up", 0))]):
+            calls.append(Call(len(calls), "main", vs, "absent", None, None, QUERIES[1], "M"))
+            calls[-1].resp_i = ri
     # every stream kind x position, one and two uploads
     for kind in STREAM_KINDS:
         for posname in POSITIONS:
@@ -593,6 +604,8 @@ def gen_calls(ctx):
             hname, h = rng.choice(HEADERS)
             calls.append(Call(len(calls), stream, vs, hname, h, rng.choice([None, None, 3, 7]),
                               rng.choice(QUERIES), rng.choice(["Q", "Op", None, "zażółć"]), rnd_cfg()))
+            if rng.random() < 0.5:
+                calls[-1].resp_i = rng.randrange(len(RESPONSES))
     return calls
 
 
@@ -673,10 +686,55 @@ def client_attrs(client):
     return {k: id(v) for k, v in vars(client).items()}
 
 
-def _respond(request):
+# scripted answers: the four clients must also agree on the OUTCOME (C12's classification) of whatever comes back
+RESPONSES = [
+    (200, {"data": {"echo": True}}),
+    (201, {"data": None}),
+    (200, {"data": {"a": None}, "errors": [{"message": "boom", "path": ["a"]}]}),
+    (200, {"errors": [{"message": "first"}, {"message": "second", "extensions": {"code": "X"}}]}),
+    (404, {"errors": [{"message": "nope"}]}),
+    (400, {"data": None, "errors": [{"message": "bad variables"}]}),
+    (500, None),                      # not JSON
+    (200, None),
+    (503, {"data": {"x": 1}}),
+    (200, {"extensions": {}}),
+]
+
+
+def _respond(request, resp=None):
     import httpx
 
-    return httpx.Response(200, json={"data": {"echo": True}})
+    st, body = resp if resp is not None else RESPONSES[0]
+    if body is None:
+        return httpx.Response(st, content=b"<html>gateway</html>", headers={"content-type": "text/html"})
+    return httpx.Response(st, json=body)
+
+
+def outcome_of(client, resp):
+    """what the caller gets back for the response: data, or the exception as a caller sees it"""
+    ex = _clients.dep_module("exceptions")
+    try:
+        return ("data", canon(client.get_data(resp)))
+    except Exception as e:  # noqa: BLE001
+        docs = (ex.GraphQLClientHttpError, ex.GraphQLClientInvalidResponseError, ex.GraphQLClientGraphQLMultiError)
+        msgs = [canon(getattr(g, "message", None)) for g in getattr(e, "errors", [])] if hasattr(e, "errors") else None
+        return ("raised", type(e).__name__, tuple(isinstance(e, c) for c in docs), getattr(e, "status_code", None), msgs,
+                canon(getattr(e, "data", None)))
+
+
+def expected_outcome(mo):
+    """the C12 model's outcome (Model/GetData.v) in the form of outcome_of"""
+    kind = mo[0]
+    if kind == "data":
+        return ("data", canon(sx_json(mo[1])))
+    if kind == "http":
+        return ("raised", "GraphQLClientHttpError", (True, False, False), int(mo[1]), None, None)
+    if kind == "invalid":
+        return ("raised", "GraphQLClientInvalidResponseError", (False, True, False), None, None, None)
+    if kind == "multi":
+        return ("raised", "GraphQLClientGraphQLMultiError", (False, False, True), None,
+                [canon(sx_json(g[0])) for g in mo[1]], canon(sx_json(mo[2])))
+    return ("raised", mo[1], (False, False, False), None, None, None)
 
 
 def snap(v):
@@ -788,9 +846,10 @@ def _one_sync(client, c, captured, store, cache=None):
     st = store.state()
     before = (snap(variables), snap(kw))
     n0 = _span_count(client)
+    captured["resp"] = getattr(c, "resp", None)
     try:
         resp = client.execute(c.query, operation_name=c.opname, variables=variables, **kw)
-        r = ("sent", captured.get("req"), canon(client.get_data(resp)), st)
+        r = ("sent", captured.get("req"), outcome_of(client, resp), st)
     except Exception as e:  # noqa: BLE001
         r = ("raised", type(e).__name__, captured.get("req"), st)
     after = (snap(variables), snap(kw))
@@ -804,9 +863,10 @@ async def _one_async(client, c, captured, store, cache=None):
     st = store.state()
     before = (snap(variables), snap(kw))
     n0 = _span_count(client)
+    captured["resp"] = getattr(c, "resp", None)
     try:
         resp = await client.execute(c.query, operation_name=c.opname, variables=variables, **kw)
-        r = ("sent", captured.get("req"), canon(client.get_data(resp)), st)
+        r = ("sent", captured.get("req"), outcome_of(client, resp), st)
     except Exception as e:  # noqa: BLE001
         r = ("raised", type(e).__name__, captured.get("req"), st)
     after = (snap(variables), snap(kw))
@@ -830,7 +890,7 @@ def _run_variant(args):
             async def go():
                 async def handler(request):
                     captured["req"] = capture(request)
-                    return _respond(request)
+                    return _respond(request, captured.get("resp"))
                 client = v.make(httpx.MockTransport(handler), client_headers=CLIENT_HEADERS)
                 before = client_attrs(client)
                 for c in calls:
@@ -855,7 +915,7 @@ def _run_variant(args):
                         await asyncio.sleep(rng.random() * 0.001)
                         resp = await cclient.execute(c.query, operation_name=c.opname,
                                                      variables=build_py(c.vs, UploadStore(tmp), c.upcfg), **c.kwargs())
-                        return canon(cclient.get_data(resp))
+                        return outcome_of(cclient, resp)
                     outs = await asyncio.gather(*[one(k, c) for k, c in enumerate(batch)], return_exceptions=True)
                     conc.append((got, [o if not isinstance(o, Exception) else ("raised", type(o).__name__) for o in outs],
                                  client_attrs(cclient) == cb))
@@ -866,7 +926,7 @@ def _run_variant(args):
         else:
             def handler(request):
                 captured["req"] = capture(request)
-                return _respond(request)
+                return _respond(request, captured.get("resp"))
             client = v.make(httpx.MockTransport(handler), client_headers=CLIENT_HEADERS)
             before = client_attrs(client)
             for c in calls:
@@ -896,7 +956,7 @@ def _run_variant(args):
                     try:
                         resp = cclient.execute(c.query, operation_name=c.opname,
                                                variables=build_py(c.vs, UploadStore(tmp), c.upcfg), **c.kwargs())
-                        return canon(cclient.get_data(resp))
+                        return outcome_of(cclient, resp)
                     except Exception as e:  # noqa: BLE001
                         return ("raised", type(e).__name__)
                 with ThreadPoolExecutor(max_workers=8) as ex:
@@ -929,11 +989,11 @@ def _run_histories(args):
                 if v.is_async:
                     async def handler(request, cap=cap):
                         cap["req"] = capture(request)
-                        return _respond(request)
+                        return _respond(request, cap.get("resp"))
                 else:
                     def handler(request, cap=cap):
                         cap["req"] = capture(request)
-                        return _respond(request)
+                        return _respond(request, cap.get("resp"))
                 client = v.make(httpx.MockTransport(handler), client_headers=ch, url=URLS[len(pool) % len(URLS)])
                 pool.append((v, client, cap, client_attrs(client)))
         for h in histories:
@@ -1056,6 +1116,8 @@ def k3_property(c: Call, obs, client_headers=None):
     """The property text on the captured request.  Returns (problems, finding_class or None)."""
     problems, cls = [], None
     if obs[0] != "sent" or obs[1] is None:
+        if obs[0] == "raised" and obs[2] is not None:
+            return [f"execute raised {obs[1]} after sending the request (answer {c.resp[0]}): the response never reaches get_data"], None
         return [f"no request sent: {obs[1]}"], None
     o = obs[1]
     ups = input_upload_paths(c.vs)
@@ -1175,7 +1237,8 @@ def run(ctx):
                 "enum/date/datetime leaves) x upload streams (BytesIO / real file / non-seekable, positioned at start / "
                 "middle / end before the call) x per-call headers (absent/empty/custom/Content-Type in 3 cases/"
                 "authorization overriding the client object's own) x timeout x query/operationName, through execute of 6 "
-                "client variants captured at httpx.MockTransport: (1) every call on one long-lived client object per "
+                "client variants captured at httpx.MockTransport, each call answered by one of 10 scripted responses "
+                "(2xx/4xx/5xx x data / errors / both / non-JSON) whose outcome must agree across variants and with the C12 model: (1) every call on one long-lived client object per "
                 "variant (one long history), (2) histories of 2-5 calls over a pool of 12 client objects in one "
                 "interpreter with Upload objects living for the whole history (re-sent, through other client objects "
                 "too; the very same variables dict / nested list / headers dict OBJECTS handed to execute again), (3) "
@@ -1226,6 +1289,7 @@ def run(ctx):
             hname, h = rng.choice(HEADERS)
             cc = Call(len(calls), "hist", src.vs, hname, h, rng.choice([None, 3, 7]), src.query, src.opname, cfg)
             cc.reuse = shape == "resend" or rng.random() < 0.5   # same variables/headers OBJECTS as earlier steps
+            cc.resp_i = rng.randrange(len(RESPONSES))
             calls.append(cc)
             slot = slot0 if shape == "same-client" else rng.randrange(n_slots)
             cc.hist_url = URLS[slot % len(URLS)]
@@ -1237,6 +1301,13 @@ def run(ctx):
             run.broken("model", f"{m!r} on {c.replay()}")
             return
     k2_typed_dump(run, calls)
+    exp_out = []
+    for (st, body), r in zip(RESPONSES, model.batch("C12", [[Sym("get_data"), st, (Sym("none") if body is None else [Sym("some"), json_sx(body)])]
+                                                            for st, body in RESPONSES])):
+        if model.is_error(r):
+            run.broken("model C12 get_data", repr(r))
+            return
+        exp_out.append(expected_outcome(r[0]))
     # the model's answer to "which bytes are sent" for every (content, position, seekable) that can occur
     combos = []
     for i in range(N_UPLOADS):
@@ -1273,6 +1344,8 @@ def run(ctx):
             where = f"history {hi} step {k + 1}/{len(h)} on client object {vname}"
             hist_rep = [{"client_object": f"{variants[s0 // 2].name}#{s0 % 2}", "call": c0.replay()} for s0, c0 in h[:k + 1]]
             d = check_against_model(c, m, obs, ch, c.hist_url) + check_spans(m, obs)
+            if obs[0] == "sent" and obs[2] != exp_out[c.resp_i]:
+                d.append(f"outcome for the answer {c.resp}: {obs[2]}, C12 model {exp_out[c.resp_i]}")
             run.dist("history_client_url", c.hist_url)
             if d:
                 k1.append((tree_size(c.vs) + 100 * k, vname, c, [f"{where}: " + d[0]] + d[1:], hist_rep))
@@ -1309,6 +1382,8 @@ def run(ctx):
             run.count()
             guard_ok, f_dict, f_ct, rt = m[1] == "t", m[2] == "t", m[3] == "t", m[4] == "t"
             d = check_against_model(c, m, obs, CLIENT_HEADERS) + check_spans(m, obs)
+            if obs[0] == "sent" and obs[2] != exp_out[c.resp_i]:
+                d.append(f"outcome for the answer {c.resp}: {obs[2]}, C12 model {exp_out[c.resp_i]}")
             if (m[7] == "t") != (m[0][0] == "error"):
                 run.broken("model: error <-> UNSET met", json.dumps(c.replay(), default=str))
             if d:
